@@ -14,6 +14,7 @@ NEUTRALS = [{'name': 'stable instead of mergesort', 'file': 'partitura/utils/mus
 
 # changes made by sub-agents that were given only the property text (see /verif/seeded/<id>/): each must stay reported
 SEEDED = [
+    {'name': 'seeded change C05-r6', 'seed': 'C05-r6', 'expect': '|LIMIT-sib|'},
     {'name': 'seeded change C05-r5b', 'seed': 'C05-r5b', 'expect': '|F4a|'},
     {'name': 'seeded change C05-r4b', 'seed': 'C05-r4b', 'expect': '|PARAM-used|'},
     {'name': 'seeded change C05-r4a', 'seed': 'C05-r4a', 'expect': '|DIVS-single|'},
